@@ -234,7 +234,14 @@ func (otx olvmTx) Validate(ctx *action.Context, signedTx action.SignedTx) (bool,
 	// the Ethereum signature covers the transaction fields only, not their envelope. The envelope has to be
 	// the one encoding that follows from those fields (canonical payload, signer key of the sender), else
 	// anybody could re-encode a signed transaction into different bytes with a different hash
-	canonical, err := tx.Marshal()
+	// (empty call data is "" as the web3 conversion produces it and the access list, empty anyway, is null:
+	// the decoder would keep null/"" and null/[] apart and each would be its own canonical form)
+	canon := *tx
+	if len(canon.Data) == 0 {
+		canon.Data = []byte{}
+	}
+	canon.AccessList = nil
+	canonical, err := canon.Marshal()
 	if err != nil || !bytes.Equal(canonical, signedTx.Data) {
 		return false, errors.New("payload is not in canonical encoding")
 	}
